@@ -2,7 +2,7 @@
 import panics  # noqa: F401  (attaches Run.no_panic_reach)
 
 META = {
-    "explanation_more": "Also (round 4): 'never panics or overflows' — the no-wrap and checked-arithmetic rules of C16's parser are evaluated here as C17.atto.*.",
+    "explanation_more": "Also (round 4): 'never panics or overflows' — the no-wrap and checked-arithmetic rules of C16's parser are evaluated here as C17.atto.*. Also (round 5): the merge of the parsed cache file into memory (sync_and_flush_to_disk → BootstrapAddr::sync) is a parser entry (C17.cache-merge).",
     "explanation": "Decides: from each listed parser entry point, the closure of workspace code reachable through resolved calls, "
                    "closures, fn items and serde Deserialize impls of the decoded types contains no panic-capable construct "
                    "(MIR Assert terminators for overflow/bounds/div-by-zero; unwrap/expect/panic!/Index/slicing/copy_from_slice/"
